@@ -19,7 +19,8 @@ func init() {
 			"(T) no non-transparent stdlib handler (ServeMux, StripPrefix, TimeoutHandler, …) is built into the pass-through chain. " +
 			"(M) no pooled buffers on the request path. " +
 			"(X) no function that returns an *http.Response defers the cancel of a request context (the caller reads the body after the function returned). " +
-			"(B) the pass-through path does not read, parse or replace the body; (R) the agent never reads the body of the request it forwards itself (a short Read is not end-of-body).",
+			"(B) the pass-through path does not read, parse or replace the body; (R) the agent never reads the body of the request it forwards itself (a short Read is not end-of-body)." +
+			" The live value slices of request header fields (Header.Values, h[k], range values) are not sorted, reversed or overwritten in place.",
 		Assumptions: []string{
 			"net/http Request.Write/ReadRequest and httputil.ReverseProxy (Director mode) preserve method, target, Host, end-to-end header values and body bytes",
 		},
